@@ -259,7 +259,7 @@ CFG = {
     "AUTO_NORANGE": ["iter", "as_str", "FromStr"],
 }
 
-SPECIAL_NAMES = ["", "two words", "q\"uote", "back\\slash", "{}", "{0}", "naïve-ü", "日本", "tab\there", "A", "\\n", "'", "}}{{"]
+SPECIAL_NAMES = ["Ångström-µs-ÄÖÜ-ßß", "", "two words", "q\"uote", "back\\slash", "{}", "{0}", "naïve-ü", "日本", "tab\there", "A", "\\n", "'", "}}{{"]
 
 
 def patterns(repr_):
@@ -319,6 +319,52 @@ def make_instance(tag, repr_, pname, discs, cfgname, order="sorted", style="plai
     return EnumSpec(mod, repr_, vs, list(CFG[cfgname]), ident="En", tags={"I", pname, cfgname, order, style}, split=split)
 
 
+MODES = {"as_str": ["auto", "match", "table"], "from_str": ["auto", "match", "table"], "FromStr": ["auto", "match", "table"],
+         "iter": ["auto", "range", "next_and_back", "table", "table_inline"]}
+USER_FEATS = ["as_str", "from_str", "FromStr", "Debug", "Display", "IntoStr", "into", "Into", "try_from", "TryFrom", "MIN", "MAX",
+              "next", "next_back", "iter", "range", "names"]
+
+
+def random_config(rng, gapless):
+    """a legal configuration: random subset of the 17 user features, random documented modes"""
+    feats = [f for f in USER_FEATS if rng.random() < 0.5]
+    if not feats:
+        feats = [rng.choice(USER_FEATS)]
+    if "range" in feats and "iter" not in feats:
+        feats.append("iter")
+    out = []
+    for f in feats:
+        if f in MODES:
+            ms = list(MODES[f])
+            if f == "iter":
+                if not gapless:
+                    ms.remove("range")
+                if "range" in feats:
+                    ms.remove("table_inline")
+            m = rng.choice(ms)
+            out.append(f if (m == "auto" and rng.random() < 0.7) else '%s(mode="%s")' % (f, m))
+        else:
+            out.append(f)
+    rng.shuffle(out)
+    return out
+
+
+def random_config_specs(tier, seed):
+    rng = random.Random(seed * 31 + 5)
+    enums = [("i8", [-100, -99, -5, 0, 1, 100], "h"), ("u16", [3, 4, 5, 6, 7], "g"), ("i64", [-7, 20, 21, 22, 400], "h"),
+             ("u8", [0, 9, 10, 11, 200, 255], "h"), ("isize", [-2, -1, 0, 1], "g")]
+    n = 8 if tier == "quick" else 60
+    out = []
+    for r, ds, tag in enums:
+        gap = all(b - a == 1 for a, b in zip(ds, ds[1:]))
+        for k in range(n):
+            feats = random_config(rng, gap)
+            ren = {0: "zz top", 1: "aa bottom"} if k % 2 == 0 else ({len(ds) - 1: ident_for(0)} if k % 3 == 0 else None)
+            vs = mk_variants(ds, order=rng.choice(["sorted", "reversed", "shuffled"]), renames=ren, rng=random.Random(rng.random()), implicit_ok=False)
+            out.append(EnumSpec("i_%s_%s_cfg%d" % (r, tag, k), r, vs, feats, ident="En", tags={"I", "randcfg"}))
+    return out
+
+
 def instance_corpus(tier="quick", seed=1, reprs=None):
     rng = random.Random(seed)
     out = []
@@ -369,6 +415,8 @@ def instance_corpus(tier="quick", seed=1, reprs=None):
         c = rng.choice(["ALL_TABLE", "ALL_MATCH", "ALL_AUTO"] + (["RANGE"] if gapless else []) + ["INLINE"])
         out.append(make_instance("r%d" % k, r, "rand", discs, c, order=rng.choice(["sorted", "shuffled", "reversed"]),
                                  style=rng.choice(["plain", "special", "dups"]), rng=random.Random(rng.random())))
+    if reprs is None or len(reprs) == len(REPRS):
+        out += random_config_specs(tier, seed)
     if tier != "quick":
         for r in ("u16", "i32", "u64"):
             base = 0 if r.startswith("u") else -500
